@@ -1,7 +1,7 @@
 use std::collections::{BTreeSet, HashSet};
 use std::{collections::HashMap, fs};
 
-use crate::analyzer::optimizations::Optimization;
+use crate::analyzer::optimizations::{get_all_optimizations, Optimization};
 
 use crate::analyzer::utils::LineNumber;
 use crate::report::report_sections::optimizations::{
@@ -19,10 +19,18 @@ pub fn generate_optimization_report(
 
     let mut total_optimizations_found = 0;
 
+    //Render the patterns in a fixed order and the files of each pattern sorted by name,
+    //so that the report does not depend on hash map iteration order or on file discovery order
+    let pattern_order = get_all_optimizations();
+    let mut optimizations: Vec<(Optimization, Vec<(String, BTreeSet<LineNumber>)>)> =
+        optimizations.into_iter().collect();
+    optimizations.sort_by_key(|(pattern, _)| pattern_order.iter().position(|p| p == pattern));
+
     for optimization in optimizations {
         if optimization.1.len() > 0 {
             let optimization_target = optimization.0;
-            let matches = optimization.1;
+            let mut matches = optimization.1;
+            matches.sort();
 
             let report_section = get_optimization_report_section(optimization_target);
 
